@@ -722,6 +722,9 @@ func (wg *WaitGroup) Add(delta int) {
 			return
 		}
 	}
+	if wg.ctl {
+		return // counted under a scheduler that has finished: a straggler's Done must not reach the real counter
+	}
 	wg.real.Add(delta)
 }
 
